@@ -193,7 +193,6 @@ Section Order.
     | Guarded g it' => guard_true st g = true -> item_full st it'
     | AutoStationary => True
     | LMI _ _ => True
-    | CrossEq f => forall si sj, In si (f_points st) -> In sj (f_tpoints st) -> holds rho phi (inst st f si sj)
     | BlockPairs _ f =>
         forall si sj, In si (f_points st) -> In sj (f_points st) -> same_tuple si sj = false ->
                       forall k, (k < f_nblocks st)%nat -> holds rho phi (instB st f k si sj)
@@ -212,7 +211,7 @@ Section Order.
 
   Theorem item_full_iff st it : sym_ok st it -> (all_hold (item_cons st it) <-> item_full st it).
   Proof.
-    induction it as [l1 l2 cname f sym|l cname f|g it IH| |l entry|f|cprefix f];
+    induction it as [l1 l2 cname f sym|l cname f|g it IH| |l entry|cprefix f];
       cbn [sym_ok item_cons item_full]; intros Hok.
     - destruct sym.
       + destruct Hok as [<- Hsym]. apply pairs_sym_complete. exact Hsym.
@@ -228,11 +227,6 @@ Section Order.
       + split; [discriminate|]. intros _ c [].
     - split; [auto|]. intros _ c [].
     - split; [auto|]. intros _ c [].
-    - unfold all_hold. split.
-      + intros H si sj Hi Hj. apply (H (mkC None (inst st f si sj))). apply in_flat_map. exists si.
-        split; [exact Hi|]. apply in_map_iff. exists sj. auto.
-      + intros H c Hc. apply in_flat_map in Hc as [si [Hi Hc]]. apply in_map_iff in Hc as [sj [<- Hj]].
-        cbn [c_obj]. apply H; assumption.
     - unfold all_hold. split.
       + intros H si sj Hi Hj Hs k Hk. apply In_nth_error in Hi as [i Hi]. apply In_nth_error in Hj as [j Hj].
         apply (H (mkC (Some (block_name st cprefix k si sj i j)) (instB st f k si sj))).
@@ -286,15 +280,13 @@ Section Order.
   Lemma item_full_perm st st' it : perm_equiv st st' -> item_full st it -> item_full st' it.
   Proof.
     intros Hpe. pose proof (fun l => Permutation_sym (get_list_perm st st' l Hpe)) as Hl.
-    induction it as [l1 l2 cname f sym|l cname f|g it IH| |l entry|f|cprefix f]; cbn [item_full]; intros H.
+    induction it as [l1 l2 cname f sym|l cname f|g it IH| |l entry|cprefix f]; cbn [item_full]; intros H.
     - intros si sj Hi Hj Hu. rewrite <- (inst_perm st st') by exact Hpe.
       apply H; [exact (Permutation_in _ (Hl l1) Hi)|exact (Permutation_in _ (Hl l2) Hj)|exact Hu].
     - intros si Hi. rewrite <- (inst_perm st st') by exact Hpe. apply H. exact (Permutation_in _ (Hl l) Hi).
     - rewrite <- (guard_perm st st' g Hpe). intros Hg. apply IH. apply H. exact Hg.
     - exact I.
     - exact I.
-    - intros si sj Hi Hj. rewrite <- (inst_perm st st') by exact Hpe.
-      apply H; [exact (Permutation_in _ (Hl LPoints) Hi)|exact (Permutation_in _ (Hl LTPoints) Hj)].
     - intros si sj Hi Hj Hs k Hk. rewrite <- (instB_perm st st') by exact Hpe.
       destruct Hpe as (_ & _ & _ & _ & Hnb & _). rewrite <- Hnb in Hk.
       apply H; [exact (Permutation_in _ (Hl LPoints) Hi)|exact (Permutation_in _ (Hl LPoints) Hj)|exact Hs|exact Hk].
@@ -445,7 +437,7 @@ Section Shipped.
     (forall f, In f (sym_formulas_item it) -> formula_symmetric f /\ formula_defined f) ->
     wf_state st -> sym_ok rho phi st it.
   Proof.
-    intros Hl Hf Hst. induction it as [l1 l2 cname f sym|l cname f|g it IH| |l entry|f|cprefix f];
+    intros Hl Hf Hst. induction it as [l1 l2 cname f sym|l cname f|g it IH| |l entry|cprefix f];
       cbn [sym_ok sym_same_list sym_formulas_item] in *; try exact I.
     - destruct sym; [|exact I]. split; [apply lst_eqb_eq; exact Hl|].
       destruct (Hf f (or_introl eq_refl)) as [Hs Hd]. intros si sj Hi Hj.
@@ -667,20 +659,52 @@ Section SkewPartial.
   Qed.
 End SkewPartial.
 
-(** * F-C04c: BlockSmoothConvexFunction compares the triplets with [==] *)
+(** * LinearOperator: the adjoint equalities, over two DIFFERENT lists *)
+Section LinearAdjoint.
+  Context {E : ips}.
+  Variable rho : nat -> E.
+  Variable phi : nat -> R.
+
+  (** the scalar class constraints of a LinearOperator hold iff <x_i, v_j> = <y_i, u_j> for every sample
+      (x_i, y_i) of the operator and every sample (u_j, v_j) of its transpose (distinct triplet objects) *)
+  Theorem linear_adjoint_complete st :
+    wf_state st ->
+    (all_hold rho phi (g_cons (run_plan plan_LinearOperator st)) <->
+     forall si sj, In si (f_points st) -> In sj (f_tpoints st) -> s_uid si <> s_uid sj ->
+                   ref_lin_adjoint (evalP rho (s_x si)) (evalP rho (s_g si))
+                                   (evalP rho (s_x sj)) (evalP rho (s_g sj)) = 0).
+  Proof.
+    intros Hst.
+    assert (Hin : In ("LinearOperator"%string, plan_LinearOperator) all_plans).
+    { unfold all_plans. cbn. tauto. }
+    rewrite (shipped_complete rho phi _ _ st Hin Hst). cbn [start_state plan_LinearOperator].
+    assert (Hcond : forall si sj, In si (f_points st) -> In sj (f_tpoints st) ->
+             (holds rho phi (inst st f_LinearOperator_adjoint_constraint_i_j si sj) <->
+              ref_lin_adjoint (evalP rho (s_x si)) (evalP rho (s_g si))
+                              (evalP rho (s_x sj)) (evalP rho (s_g sj)) = 0)).
+    { intros si sj Hi Hj. destruct Hst as (H1 & H2 & H3 & H4).
+      assert (Hd : cdef (parR st) f_LinearOperator_adjoint_constraint_i_j)
+        by exact (proj1 (feq_lin_adjoint (parR st) (fun _ : nat => (0 : R1)) (fun _ => 0))).
+      rewrite (inst_holds_denote rho phi st _ si sj (conj H1 (conj H2 (conj H3 H4))) (H1 si Hi) (H3 sj Hj) Hd).
+      rewrite denoteC_sat, (proj2 (feq_lin_adjoint _ _ _)). unfold sat. cbn [fst snd]. reflexivity. }
+    split.
+    - intros H si sj Hi Hj Hu. apply (Hcond si sj Hi Hj).
+      exact (H _ (or_introl eq_refl) si sj Hi Hj Hu).
+    - intros H it [<-|[<-|[<-|[]]]]; cbn [item_full]; try exact I.
+      intros si sj Hi Hj Hu. apply (Hcond si sj Hi Hj). apply H; assumption.
+  Qed.
+End LinearAdjoint.
+
+(** * regression for the repaired F-C04c (BlockSmoothConvexFunction compared the triplets with [==]) *)
 Definition block_s (uid fe : nat) : sample :=
   mkSample [(0%nat, 1%Q)] [(1%nat, 1%Q)] [(KF fe, 1%Q)] None uid 10 11 [[(1%nat, 1%Q)]].
 Definition block_witness : fstate :=
   mkF "Function_0" (fun _ => 0%Q) (fun _ => false) [block_s 0 0; block_s 1 1] [] [] None 2 2 12 1 (fun _ => 1%Q).
 
-(** two distinct recorded samples (x, g, f1), (x, g, f2) holding the same Point objects x and g: no
-    condition at all is generated between them (every real member has f1 = f2) *)
-Theorem block_same_xg_refuted :
-  exists st s1 s2, f_points st = [s1; s2] /\ s_uid s1 <> s_uid s2 /\ s_f s1 <> s_f s2 /\
-                   f_nblocks st = 1%nat /\
-                   g_cons (run_plan plan_BlockSmoothConvexFunction st) = [].
-Proof.
-  exists block_witness, (block_s 0 0), (block_s 1 1).
-  split; [reflexivity|]. split; [discriminate|]. split; [discriminate|]. split; [reflexivity|].
-  vm_compute. reflexivity.
-Qed.
+(** two distinct recorded samples (x, g, f1), (x, g, f2) holding the same Point objects x and g: with the
+    identity test both ordered pairs get their condition (under the old tuple equality none did) *)
+Lemma block_same_xg_regression :
+  map c_name (g_cons (run_plan plan_BlockSmoothConvexFunction block_witness))
+  = [Some "IC_Function_0_smoothness_convexity_block_0(Point_0, Point_1)"%string;
+     Some "IC_Function_0_smoothness_convexity_block_0(Point_1, Point_0)"%string].
+Proof. vm_compute. reflexivity. Qed.
